@@ -161,6 +161,8 @@ def run(tier, replay=None):
     c["expand_plans"] = expand(known)
     c["more_drivers"] = ["chanmgr"]
     c["driver_parallel"] = {"chanmap": 1, "chanmgr": 12}
+    c["driver_chunk"] = 1200      # the waitChannel / forwardChannel goroutines of a finished plan never exit: fresh process every 1200 plans
+    c["driver_timeout"] = 3000
     c["assumptions"] = C["assumptions"] + ["manager protocol fingerprint %s, transcription variant '%s'%s"
                                            % (fp, variant, "" if known else " (unknown fingerprint: transcription skipped)")]
     return flow.standard_flow(c, tier, replay)
